@@ -385,7 +385,7 @@ def run_history(ctx, klong, drv, cols, rows, ops, label, early_db=True):
             if m != impl:
                 ctx.mismatch("Klong.C19.step vs Table (%s)" % op[0], case, m, impl)
                 return False
-        if op[0] in COMMITTING and not (op[0] == "index" and exp == "err") and exp != "n:0":
+        if op[0] in COMMITTING and not (op[0] == "index" and exp == "err") and not (op[0] == "rindex" and exp == "n:0"):
             pending = []
         ctx.bump("op:" + op[0])
         ctx.bump("reply:" + exp.split(":")[0])
@@ -584,7 +584,7 @@ def run(ctx):
     ctx.rule = ("seeded histories of 2..14 (quick) / 2..40 (thorough) operations (insert, batch insert, t?col, #t, "
                 ".schema, .index on 1-2 columns, re-insert of a key, .rindex, t,c,,v, select */count/column through "
                 ".db, and rejected requests) on tables of 1-4 integer/real/string columns with 0-6 initial rows; "
-                "thorough also every history of length <= 3 over an 11-operation alphabet on a fixed table. "
+                "plus every history of length <= 2 (quick) / <= 3 (thorough) over an 11-operation alphabet on a fixed table. "
                 "distinct = distinct histories; non-trivial = at least two operations")
     ctx.assumptions += [
         "an index is created only on columns whose values are unique at that moment (the property's own precondition)",
